@@ -858,35 +858,39 @@ func (e *vfX01Env) Change(ks, kind string) int {
 	return v
 }
 
-// frames of handleSchemaEvent for a change of the given kind; the concrete event type rotates with n
+// frames of handleSchemaEvent for a change of the given kind; target and change type rotate with n (12 combinations)
+var vfX01Changes = []string{"UPDATED", "CREATED", "DROPPED"}
+
 func vfX01EventFrame(ks, kind string, n int) frame {
+	ch := vfX01Changes[n%3]
 	if kind == "keyspace" {
-		return &schemaChangeKeyspace{change: "UPDATED", keyspace: ks}
+		return &schemaChangeKeyspace{change: ch, keyspace: ks}
 	}
 	switch n % 4 {
 	case 0:
-		return &schemaChangeTable{change: "UPDATED", keyspace: ks, object: "t"}
+		return &schemaChangeTable{change: ch, keyspace: ks, object: "t"}
 	case 1:
-		return &schemaChangeType{change: "CREATED", keyspace: ks, object: "y"}
+		return &schemaChangeType{change: ch, keyspace: ks, object: "y"}
 	case 2:
-		return &schemaChangeFunction{change: "DROPPED", keyspace: ks, name: "f", args: []string{"int"}}
+		return &schemaChangeFunction{change: ch, keyspace: ks, name: "f", args: []string{"int"}}
 	}
-	return &schemaChangeAggregate{change: "CREATED", keyspace: ks, name: "g", args: []string{"int"}}
+	return &schemaChangeAggregate{change: ch, keyspace: ks, name: "g", args: []string{"int"}}
 }
 
 func vfX01EventBody(ks, kind string, n int) []byte {
+	ch := vfX01Changes[n%3]
 	if kind == "keyspace" {
-		return vfX01SchemaEventBody("UPDATED", "KEYSPACE", ks, "", nil)
+		return vfX01SchemaEventBody(ch, "KEYSPACE", ks, "", nil)
 	}
 	switch n % 4 {
 	case 0:
-		return vfX01SchemaEventBody("UPDATED", "TABLE", ks, "t", nil)
+		return vfX01SchemaEventBody(ch, "TABLE", ks, "t", nil)
 	case 1:
-		return vfX01SchemaEventBody("CREATED", "TYPE", ks, "y", nil)
+		return vfX01SchemaEventBody(ch, "TYPE", ks, "y", nil)
 	case 2:
-		return vfX01SchemaEventBody("DROPPED", "FUNCTION", ks, "f", []string{"int"})
+		return vfX01SchemaEventBody(ch, "FUNCTION", ks, "f", []string{"int"})
 	}
-	return vfX01SchemaEventBody("CREATED", "AGGREGATE", ks, "g", []string{"int"})
+	return vfX01SchemaEventBody(ch, "AGGREGATE", ks, "g", []string{"int"})
 }
 
 // PushEvent sends an EVENT frame on the connection that registered for schema changes (the control connection)
